@@ -4,7 +4,7 @@ of /repo (nothing under /repo is touched).
 
   tools/seeded.py import <src dir> <id>          copy patch.diff / demo.py / notes.md from an agent's output into seeded/<id>/
   tools/seeded.py verify <id> [--props C01,C02]   baseline tests + demo with/without the patch + the property's check(s)
-  tools/seeded.py all                             verify every seeded/<id>
+  tools/seeded.py all [id prefix ...]             verify every seeded/<id> (with one of the prefixes)
 """
 import json
 import os
@@ -122,10 +122,12 @@ def main():
         print(json.dumps(verify(a[1], props), indent=1))
     elif a[0] == "all":
         for sid in sorted(os.listdir(os.path.join(V, "seeded"))):
+            if a[1:] and not any(sid.startswith(x) for x in a[1:]):
+                continue
             if os.path.isdir(os.path.join(V, "seeded", sid)):
                 r = verify(sid)
                 print(sid, "valid" if r["valid"] else "INVALID", "detected" if r["detected"] else "MISSED",
-                      {p: (c["exit"], c["violations"]) for p, c in r["checks"].items()})
+                      {p: (c["exit"], c["violations"]) for p, c in r["checks"].items()}, flush=True)
 
 
 if __name__ == "__main__":
